@@ -193,6 +193,7 @@ def run(run, model):
     from . import c19
     run.do(c19.validators, model, "C14.no-spurious-rejection", "C14.no-spurious-rejection")
     run.do(gates.c02_result_identity, model, "C14.result-identity", "C14.forward")
+    run.do(gates.object_init_args, model)
     run.do(gates.c02_exc_transparent, model, "C14.exc-transparent")
     run.do(c05.order_identity, model, "C14.forward-order", "C14.forward")
     run.do(metadata, model)
